@@ -104,7 +104,12 @@ impl Property for C03 {
             }
         }
         let front = *g.pick(&[FrontKind::Hot, FrontKind::Cold, FrontKind::Local]);
-        let pool: [&[u8]; 8] = [b"plain text", b"", "caf\u{e9} \u{20ac}".as_bytes(), &[0x63, 0x61, 0x66, 0xe9], &[0xff, 0xfe, 0x00], &[0xe2, 0x82], b"  padded \n", &[0xf0, 0x9f, 0x98, 0x80, 0x21]];
+        let pool: [&[u8]; 20] = [
+            b"plain text", b"", "caf\u{e9} \u{20ac}".as_bytes(), &[0x63, 0x61, 0x66, 0xe9], &[0xff, 0xfe, 0x00], &[0xe2, 0x82], b"  padded \n", &[0xf0, 0x9f, 0x98, 0x80, 0x21],
+            // for the parsing loader: numbers with every kind of surrounding whitespace, and things that are not numbers
+            b"42", b" 42\n", b"\t-17\r\n", "\u{b}-17\n".as_bytes(), "\u{85}7\u{2003}".as_bytes(), "\u{3000}5\u{a0}".as_bytes(), "\u{2028}+9\u{c}".as_bytes(),
+            b"4 2", b"0x10", b"99999999999999999999", b"-0", b" \n ",
+        ];
         let texts: Vec<(String, Vec<u8>)> = (0..g.below(4)).map(|i| (format!("t{i}"), g.pick(&pool).to_vec())).collect();
         for (id, bytes) in &texts {
             tree.put(id, "txt", bytes);
@@ -162,9 +167,81 @@ fn builtin_strings(world: &World, texts: &[(String, Vec<u8>)]) {
     }
 }
 
+/// User-defined assets on the library's own loaders (ParseLoader, BytesLoader, StringLoader, LoadFrom).
+pub struct PNum(pub i64);
+impl std::str::FromStr for PNum {
+    type Err = std::num::ParseIntError;
+    fn from_str(s: &str) -> Result<Self, Self::Err> {
+        s.parse().map(PNum)
+    }
+}
+impl assets_manager::Asset for PNum {
+    const EXTENSION: &'static str = "txt";
+    type Loader = assets_manager::loader::ParseLoader;
+}
+pub struct PFrom(pub i64);
+impl From<i64> for PFrom {
+    fn from(n: i64) -> Self {
+        PFrom(n)
+    }
+}
+impl assets_manager::Asset for PFrom {
+    const EXTENSION: &'static str = "txt";
+    type Loader = assets_manager::loader::LoadFrom<i64, assets_manager::loader::ParseLoader>;
+}
+pub struct PBytes(pub Vec<u8>);
+impl From<Vec<u8>> for PBytes {
+    fn from(v: Vec<u8>) -> Self {
+        PBytes(v)
+    }
+}
+impl assets_manager::Asset for PBytes {
+    const EXTENSION: &'static str = "txt";
+    type Loader = assets_manager::loader::LoadFrom<Vec<u8>, assets_manager::loader::BytesLoader>;
+}
+pub struct PBox(pub Box<[u8]>);
+impl From<Box<[u8]>> for PBox {
+    fn from(v: Box<[u8]>) -> Self {
+        PBox(v)
+    }
+}
+impl assets_manager::Asset for PBox {
+    const EXTENSION: &'static str = "txt";
+    type Loader = assets_manager::loader::LoadFrom<Box<[u8]>, assets_manager::loader::BytesLoader>;
+}
+
+fn builtin_loaders(world: &World, texts: &[(String, Vec<u8>)]) {
+    for (id, bytes) in texts {
+        let any = world.front.any();
+        // the documented behaviour of ParseLoader: UTF-8, surrounding white space (Unicode White_Space) removed, FromStr
+        let expect: Option<i64> = std::str::from_utf8(bytes).ok().and_then(|s| s.trim_matches(char::is_whitespace).parse::<i64>().ok());
+        let got = [("ParseLoader", any.load::<PNum>(id).map(|h| h.read().0).map_err(|e| e.id().to_string())), ("LoadFrom<i64, ParseLoader>", any.load::<PFrom>(id).map(|h| h.read().0).map_err(|e| e.id().to_string()))];
+        for (ty, r) in got {
+            match (expect, r) {
+                (Some(v), Ok(n)) => detsim::check(n == v, "C03/parse-loader-value", || format!("{ty} on {id}: {n}, the file holds {:?} = {v}", String::from_utf8_lossy(bytes))),
+                (Some(v), Err(_)) => detsim::fail("C03/parse-loader-rejected", format!("{ty} on {id} failed although the file holds {:?}, which is {v} once surrounding white space is removed", String::from_utf8_lossy(bytes))),
+                (None, Ok(n)) => detsim::fail("C03/parse-loader-accepts-garbage", format!("{ty} on {id} = {n} although the file holds {bytes:?}")),
+                (None, Err(e)) => detsim::check(e == *id, "C03/error-names-wrong-id", || format!("{ty} on {id} failed with an error naming {e}")),
+            }
+        }
+        if expect.is_some() && bytes.iter().any(|b| *b >= 0x80 || *b == 0x0b) {
+            detsim::count("reach.parse_loader_unicode_whitespace");
+        }
+        match any.load::<PBytes>(id) {
+            Ok(h) => detsim::check(h.read().0 == *bytes, "C03/bytes-loader-content", || format!("BytesLoader on {id}: {:?}, the file holds {bytes:?}", h.read().0)),
+            Err(e) => detsim::fail("C03/bytes-loader-rejected", format!("BytesLoader (Vec<u8>) on {id} failed: {}", e.reason())),
+        }
+        match any.load::<PBox>(id) {
+            Ok(h) => detsim::check(*h.read().0 == bytes[..], "C03/bytes-loader-content", || format!("BytesLoader (Box<[u8]>) on {id}: {:?}, the file holds {bytes:?}", h.read().0)),
+            Err(e) => detsim::fail("C03/bytes-loader-rejected", format!("BytesLoader (Box<[u8]>) on {id} failed: {}", e.reason())),
+        }
+    }
+}
+
 fn scenario(w: Work) {
     let mut world = World::new(w.front, w.tree.clone(), w.variant);
     builtin_strings(&world, &w.texts);
+    builtin_loaders(&world, &w.texts);
     let mut failed: Vec<(Ty, String)> = vec![];
     for (i, op) in w.ops.iter().enumerate() {
         if crate::props::c02::is_edit(op) {
